@@ -194,6 +194,13 @@ def gen_reservoir():
             m.defined["ideal_alpha_scaled"]["ret"] = "list"
         m.defined["build_matrix"]["ret"] = 3
         P.Tr(m, fn, emit_name=name, kinds=kinds, cut_before=is_solve, ret_names=["a_matrix", "b"]).translate()
+    # ... and the ideal class's loop body once more with `self.alpha_scaled` left as a parameter: what a user subclass that overrides
+    # the documented hook and inherits `simulate` runs (tie to Lib/ReservoirUser.v in Props/C17_user_law.v)
+    fn_u = ast.FunctionDef(name="ideal_step_system_u", args=ast.arguments(posonlyargs=[], args=[ast.arg(arg=a) for a in ("alpha_scaled_fn", "dx_squared", "t_cur", "t_next", "prev")],
+                                                                          kwonlyargs=[], kw_defaults=[], defaults=[]),
+                           body=loop_body("IdealReservoir"), decorator_list=[], lineno=1, col_offset=0)
+    ast.fix_missing_locations(fn_u)
+    P.Tr(m, fn_u, emit_name="ideal_step_system_u", kinds={"alpha_scaled_fn": "fun", "prev": "list"}, cut_before=is_solve, ret_names=["a_matrix", "b"]).translate()
     # ---- the rest of the loop body: the iterative solve and what is stored.  Expected shape (anything else fails closed):
     #     nxt, info = sparse.linalg.bicgstab(a_matrix, b, atol=<const>, rtol=<const>)
     #     if <test over info and _is_solved(a_matrix, nxt, b)>:
